@@ -333,7 +333,7 @@ def no_underflow_fact(fa):
     return guards.cmp_matches(fa, "Le", lambda x: x == ("l", 2), lambda x: x == fld("valid_len"))  # n <= valid_len
 
 
-def run_r3(ctx, rule):
+def run_r3(ctx, rule, reader_only=False):
     facts = ctx.facts
     # advance(n) panics (documented) when n exceeds the buffered length: *no* trusted field may have been written by
     # then -- a caught panic must leave window start and length as they were
@@ -382,6 +382,8 @@ def run_r3(ctx, rule):
                 if e[0] == "call" and e[2][0] not in RING:
                     bad = (e[1], e[2][0])
     rule.check(bad is None and npaths > 0, "request_more/rebase-atomic", "the rebasing stores (pos_of_buf, pos_in_buf, mark_in_buf) are not interleaved with calls that may unwind%s" % (" (call %s in between)" % short(bad[1]) if bad else ""), f.loc(bad[0]) if bad else f.loc())
+    if reader_only:
+        return
     # the writer's panicked flag brackets both sink calls
     for m in (DW + "flush_defer_err", DW + "write_all_defer_err_cold"):
         fn = facts.fns[[i for i in facts.fns if norm(i) == m][0]]
